@@ -14,6 +14,7 @@ PROPS = {
     "C04": dict(families=["acq"], pred="C04"),
     "C05": dict(families=["acq", "panic", "fault"], pred="C05"),
     "C06": dict(families=["hist", "panic", "acq"], pred="C06"),
+    "C07": dict(families=["trynew"], pred="C07"),
     "C08": dict(families=["order", "acq"], pred="C08"),
     "C09": dict(families=["acq", "fault"], pred="C09"),
     "C11": dict(families=["panic"], pred="C11"),
